@@ -218,6 +218,7 @@ def routes : List (String × String × Handler) :=
 
 inductive Route
   | found (h : Handler)
+  | options              -- OPTIONS on an existing path: httprouter answers 200 + Allow itself
   | methodNotAllowed     -- 405: the path exists for another method
   | notFound             -- 404
 deriving DecidableEq, Repr
@@ -226,7 +227,10 @@ deriving DecidableEq, Repr
 def route (method path : String) : Route :=
   match routes.find? (fun e => e.1 = method && e.2.1 = path) with
   | some e => .found e.2.2
-  | none => if routes.any (fun e => e.2.1 = path) then .methodNotAllowed else .notFound
+  | none =>
+    if routes.any (fun e => e.2.1 = path) then
+      (if method = "OPTIONS" then .options else .methodNotAllowed)
+    else .notFound
 
 /-- status and effect of one HTTP request on the registry (pprof/ping/info and the four
 queries do not touch it) -/
@@ -235,6 +239,7 @@ def httpStep (c : Conf) (r : Registry) (method path : String) (a : HttpArgs) (no
   match route method path with
   | .notFound => (r, 404)
   | .methodNotAllowed => (r, 405)
+  | .options => (r, 200)
   | .found .createTopic => ((createTopic r a).1, (createTopic r a).2.status)
   | .found .deleteTopic => ((deleteTopic r a).1, (deleteTopic r a).2.status)
   | .found .createChannel => ((createChannel r a).1, (createChannel r a).2.status)
